@@ -17,7 +17,8 @@ case "$PROP" in
   C06) VARIANTS="plain tsan" ;;
   C10) VARIANTS="asan" ;;
   C05) VARIANTS="plain asan" ;;
-  C03|C04|C07|C08|C09|C14|C19) VARIANTS="plain" ;;
+  C14) VARIANTS="plain asan" ;;
+  C03|C04|C07|C08|C09|C19) VARIANTS="plain" ;;
   *) echo "property $PROP is not claimed (see MANIFEST.json not_applicable)"; exit 2 ;;
 esac
 
@@ -36,6 +37,7 @@ runs_for() { # variant
     C08:plain) [ $q = 1 ] && echo 2000 || echo 60000 ;;
     C10:asan)  [ $q = 1 ] && echo 1000 || echo 30000 ;;
     C14:plain) [ $q = 1 ] && echo 3000 || echo 100000 ;;
+    C14:asan)  [ $q = 1 ] && echo 600  || echo 20000 ;;
     C19:plain) [ $q = 1 ] && echo 2500 || echo 60000 ;;
     *) echo 200 ;;
   esac
